@@ -21,8 +21,18 @@ func init() {
 }
 
 func walletSteps(c *Ctx) (apply, revert *ir.Func) {
-	for _, f := range c.P.MethodsOf("wallet", "SingleAddressWallet") {
+	// the functions of the package (methods or not) that take the store transaction and one update
+	for _, f := range c.P.PkgFuncs("wallet") {
 		if f.Type.Params == nil {
+			continue
+		}
+		takesTx := false
+		for _, fld := range f.Type.Params.List {
+			if ir.IsNamed(f.Info().TypeOf(fld.Type), ir.PkgPath("wallet"), "UpdateTx") {
+				takesTx = true
+			}
+		}
+		if !takesTx {
 			continue
 		}
 		for _, fld := range f.Type.Params.List {
@@ -421,7 +431,8 @@ func walletDiffTable(f *ir.Func) diffTable {
 		if !ok || rs.Value == nil {
 			continue
 		}
-		call, ok := ast.Unparen(rs.X).(*ast.CallExpr)
+		// (the list may have been bound to a local first, as a classifying helper's parameter is)
+		call, ok := ast.Unparen(origin(f, rs.X)).(*ast.CallExpr)
 		if !ok || f.Callee(call) == nil || f.Callee(call).Name() != "SiacoinElementDiffs" {
 			continue
 		}
